@@ -4,7 +4,9 @@ Every silent-accept cell (torch refuses on the dense matrix, the operator return
 assigned to a root-cause group by the rules below; a cell matching no rule is an error (it must be triaged by hand
 first).  Each group file is a list of entries sharing the group's id / what_fails, one entry per NARROW key
 {class, op, shape_class} (the cat group is keyed {op, shape_class}: its site, CatLinearOperator.__init__, is the same
-for every class).  Usage:  PYTHONPATH=/repo:/verif python -m harness.c19_kf [--write]
+for every class).  Operator (+) operator cells are keyed by the method the call DISPATCHES to instead of the left class
+({impl, op, shape_class[, rhs_class]}: the root cause is that method, whatever subclass / composite reaches it).
+Usage:  PYTHONPATH=/repo:/verif python -m harness.c19_kf [--write]
 """
 import json
 import os
@@ -77,62 +79,127 @@ GROUPS = [
 ]
 
 
+PAIR_GROUPS = [
+    # (slug, predicate on the full key, key attributes kept, what_fails, reproduction)  — operator (+) operator cells
+    ("zero-add-returns-other",
+     lambda k: k["impl"] == "ZeroLinearOperator.__add__",
+     ("impl", "op", "shape_class"), None, None),
+    ("add-zero-operand-ignored",
+     lambda k: k["op"] in ("add_op", "torch_add") and k["rhs_class"] == "ZeroLinearOperator"
+     and k["impl"] != "ZeroLinearOperator.__add__",
+     ("impl", "op", "rhs_class", "shape_class"),
+     "A + ZeroLinearOperator(of an incompatible shape) returns A: LinearOperator.__add__ and SumLinearOperator.__add__ "
+     "return self for a ZeroLinearOperator operand without a broadcast check (also reached through the __add__ overrides "
+     "that defer to them: Dense, Triangular, Kronecker*, LowRankRoot*, AddedDiag)",
+     "(DenseLinearOperator(eye(3)) + ZeroLinearOperator(4, 4)).shape == (3, 3); eye(3) + zeros(4, 4) raises"),
+    ("mul-zero-operand-returns-other",
+     lambda k: k["op"] in ("mul_op", "torch_mul") and k["rhs_class"] == "ZeroLinearOperator" and k["impl"] == "LinearOperator.mul",
+     ("impl", "op", "rhs_class", "shape_class"),
+     "A * ZeroLinearOperator(of an incompatible shape) returns the ZeroLinearOperator: LinearOperator.mul returns a "
+     "ZeroLinearOperator operand before its broadcast check",
+     "(DenseLinearOperator(eye(3)) * ZeroLinearOperator(4, 4)).shape == (4, 4); eye(3) * zeros(4, 4) raises"),
+    ("identity-matmul-returns-rhs",
+     lambda k: k["impl"] in ("IdentityLinearOperator.matmul", "flipped:IdentityLinearOperator.matmul") and k["op"] in c19.MATMUL_LIKE,
+     ("impl", "op", "shape_class"), None, None),
+    ("diag-matmul-elementwise",
+     lambda k: k["impl"] in ("DiagLinearOperator.matmul", "ConstantDiagLinearOperator.matmul") and k["op"] in c19.MATMUL_LIKE,
+     ("impl", "op", "rhs_class", "shape_class"), None, None),
+    ("interpolated-matmul-diag",
+     lambda k: k["impl"] == "InterpolatedLinearOperator.matmul" and k["op"] in ("matmul_op", "torch_matmul")
+     and k["rhs_class"] in c19_kf_DIAG_RHS,
+     ("impl", "op", "rhs_class", "shape_class"),
+     "InterpolatedLinearOperator.matmul(DiagLinearOperator) scales right_interp_values by the operand's diagonal "
+     "elementwise without a shape check: a 1 x 1 diagonal operand is silently broadcast against the inner dimension",
+     "(InterpolatedLinearOperator(DenseLinearOperator(eye(3))) @ DiagLinearOperator(ones(1))).shape == (3, 3); eye(3) @ ones(1, 1) raises"),
+    ("zero-matmul-ignores-batch",
+     lambda k: k["impl"] == "ZeroLinearOperator.matmul" and k["op"] in c19.MATMUL_LIKE,
+     ("impl", "op", "shape_class"), None, None),
+]
+c19_kf_DIAG_RHS = ("DiagLinearOperator", "ConstantDiagLinearOperator", "IdentityLinearOperator",
+                   "KroneckerProductDiagLinearOperator")
+
+
 class _Ctx:
     seed = 0
 
+    def say(self, *a):
+        print(*a)
+
 
 def collect():
-    recs = c19.run_grid(_Ctx(), quick=False)
     cells = {}
-    for r in recs:
-        if r["torch"][0] == "raise" and r["impl"][0] == "ok":
-            k = (r["cls"], r["case"]["op"], r["case"]["kind"])
-            cells.setdefault(k, r)
+    for quick in (True, False):
+        recs = c19.run_grid(_Ctx(), quick=quick)
+        for r in recs:
+            if r["torch"][0] == "raise" and r["impl"][0] == "ok":
+                cells.setdefault(json.dumps(c19.key_of(r), sort_keys=True), r)
     return cells
 
 
 def main(write):
     cells = collect()
+    texts = {slug: (what, repro) for slug, pred, what, repro in GROUPS}
+    for slug, pred, proj, what, repro in PAIR_GROUPS:
+        if what is not None:
+            texts[slug] = (what, repro)
     files = {}
     unassigned = []
-    for (c, o, k), r in sorted(cells.items()):
+    for sig, r in sorted(cells.items()):
+        key = json.loads(sig)
+        if "impl" in key:
+            for slug, pred, proj, what, repro in PAIR_GROUPS:
+                if pred(key):
+                    files.setdefault(slug, []).append(({a: key[a] for a in proj}, r))
+                    break
+            else:
+                unassigned.append(key)
+            continue
+        c, o, k = key["class"], key["op"], key["shape_class"]
         for slug, pred, what, repro in GROUPS:
             if pred(c, o, k):
-                files.setdefault(slug, []).append((c, o, k, r))
+                pk = {"op": o, "shape_class": k} if slug == "cat-dim-out-of-range" else {"class": c, "op": o, "shape_class": k}
+                files.setdefault(slug, []).append((pk, r))
                 break
         else:
-            unassigned.append((c, o, k))
+            unassigned.append(key)
     if unassigned:
         print("UNASSIGNED cells (triage by hand):")
         for u in unassigned:
             print("  ", u)
         return 1
     pref_kind = ("size1_inner", "wrong_inner", "wrong_col", "nonsingleton_batch", "ge_pos-1", "dim_out_of_range", "nonsquare",
-                 "bad_batch")
-    pref_op = ("matmul", "add", "inv_quad_logdet", "getitem_alltensor", "expand", "solve", "cat", "logdet", "cholesky")
-    for slug, pred, what, repro in GROUPS:
-        ents = sorted(files.get(slug, []), key=lambda x: (x[2] not in pref_kind, x[1] not in pref_op, len(x[0]), x[0], x[1], x[2]))
+                 "bad_batch", "bigger")
+    pref_op = ("matmul", "add", "inv_quad_logdet", "getitem_alltensor", "expand", "solve", "cat", "logdet", "cholesky",
+               "add_op", "mul_op", "matmul_op")
+    total = 0
+    for slug in sorted(files):
+        what, repro = texts[slug]
+        ents = sorted(files[slug], key=lambda x: ("impl" in x[0], x[0]["shape_class"] not in pref_kind, x[0]["op"] not in pref_op,
+                                                  len(x[0].get("class", "")), json.dumps(x[0], sort_keys=True)))
         out = []
         seen = set()
-        for i, (c, o, k, r) in enumerate(ents):
-            key = {"op": o, "shape_class": k} if slug == "cat-dim-out-of-range" else {"class": c, "op": o, "shape_class": k}
-            sig = json.dumps(key, sort_keys=True)
+        for pk, r in ents:
+            sig = json.dumps(pk, sort_keys=True)
             if sig in seen:
                 continue
             seen.add(sig)
-            e = {"id": "C19-" + slug, "property": "C19", "status": "known", "key": key, "what_fails": what}
+            e = {"id": "C19-" + slug, "property": "C19", "status": "known", "key": pk, "what_fails": what}
             if not out:
                 e["reproduction"] = repro
-                e["replay"] = {"property": "C19", "expr": r["expr"], "case": r["case"], "implementation": r["impl"],
+                case = dict(r["case"])
+                e["replay"] = {"property": "C19", "expr": r["expr"], "case": case, "implementation": r["impl"],
                                "torch_on_dense": r["torch"]}
             else:
                 e["replay"] = {"see": "first entry of this file; same root cause, cell %s" % sig}
             out.append(e)
+        total += len(out)
         print("%-32s %3d keys" % (slug, len(out)))
         if write and out:
             p = os.path.join(common.VERIF, "known_findings.d", "C19-%s.json" % slug)
-            with open(p, "w") as f:
+            with open(p + ".tmp", "w") as f:
                 json.dump(out, f, indent=0, sort_keys=True)
+            os.replace(p + ".tmp", p)
+    print("total keys", total, "for", len(cells), "silent cells")
     return 0
 
 
